@@ -6,6 +6,7 @@ package PKG
 // TruncateLog drops everything after the given offset and makes the rest synced, Clear empties.
 
 import (
+	"errors"
 	"context"
 
 	"github.com/oxia-db/oxia/proto"
@@ -30,9 +31,12 @@ type zzWal struct {
 	yieldOnSync  bool // AppendAndSync yields between append and sync (schedule point "wal.sync:<name>")
 	appends      int
 	rejected     int // appends refused by the contiguity rule
+	failAppends  int // the next failAppends AppendAsync calls fail with an I/O error and store nothing
 	frozen       bool // set by a harness once the node has answered NewTerm: the log must not grow any more
 	racy         bool // Sync is a schedule point (concurrency harnesses)
 }
+
+var errZZWalIO = errors.New("zz: transient wal i/o error")
 
 func zzNewWal(name string) *zzWal {
 	return &zzWal{name: name, first: -1, lastAppended: -1, lastSynced: -1}
@@ -46,6 +50,10 @@ func (w *zzWal) Append(e *proto.LogEntry) error {
 	return w.Sync(context.Background())
 }
 func (w *zzWal) AppendAsync(e *proto.LogEntry) error {
+	if w.failAppends > 0 {
+		w.failAppends--
+		return errZZWalIO
+	}
 	if e.Offset < 0 {
 		return wal.ErrInvalidNextOffset
 	}
